@@ -13,15 +13,31 @@ pub struct Elt {
 
 pub const MULT: f32 = 1_000_000.0;
 
+thread_local! {
+    /// rounding noise of the weights of the stream `claims()` was last called on (see `noise()`)
+    static NOISE: std::cell::Cell<f64> = std::cell::Cell::new(0.0);
+}
+
+/// The weight of a claim is the REAL number sum(largest distance seen - d) over exact f32 inputs; this reference
+/// evaluates it in f64. An implementation working on f32 data may round each term (largest - d) to f32 (half an ulp
+/// of at most twice the largest magnitude in the stream) or round the stream's contribution elsewhere by as much, so two
+/// evaluations of one weight may differ by `count x 2^-23 x scale`; twice that bound is the tolerance for weight values and
+/// the band inside which two weights are treated as tied ("ties accepted either way").
+pub fn noise() -> f64 {
+    NOISE.with(|n| n.get())
+}
+
 /// qualifying claims: (q, t) -> (count, weight) where weight = sum over counted distances of (max seen - d)
 pub fn claims(stream: &[Elt], max_distance: f32, min_votes: usize) -> BTreeMap<(u64, u64), (usize, f64)> {
     // the largest distance present in the stream (no artificial floor)
     let mut max_seen = f32::NEG_INFINITY;
+    let mut scale = 0.0f64;
     for e in stream {
         if let Some(d) = e.d {
             if d > max_seen {
                 max_seen = d;
             }
+            scale = scale.max(d.abs() as f64);
         }
     }
     let mut groups: BTreeMap<(u64, u64), Vec<f32>> = BTreeMap::new();
@@ -32,22 +48,21 @@ pub fn claims(stream: &[Elt], max_distance: f32, min_votes: usize) -> BTreeMap<(
             }
         }
     }
+    let maxcount = groups.values().map(|v| v.len()).max().unwrap_or(0) as f64;
+    NOISE.with(|n| n.set(2.0 * maxcount * scale.max(1e-6) * (0.5f64).powi(23)));
     groups
         .into_iter()
         .filter(|(_, v)| v.len() >= min_votes && !v.is_empty())
         .map(|(k, v)| {
-            let mut v = v;
-            v.sort_by(|a, b| a.partial_cmp(b).unwrap());
-            let w: f64 = v.iter().map(|d| (max_seen - d) as f64).sum();
+            let w: f64 = v.iter().map(|d| max_seen as f64 - *d as f64).sum();
             (k, (v.len(), w))
         })
         .collect()
 }
 
-/// two weights are treated as tied only when they differ by no more than f64 summation rounding: every term
-/// (max seen - d) is an exact f32 value, so distinct claims differ by at least ~1e-8 relative
+/// two weights are treated as tied when they are closer than the rounding noise of the stream (see `noise()`)
 pub fn near(a: f64, b: f64) -> bool {
-    (a - b).abs() <= 1e-12 * (a.abs().max(b.abs())).max(1e-9)
+    (a - b).abs() <= noise().max(1e-12 * a.abs().max(b.abs()))
 }
 
 /// Result of checking a Hungarian (SortVoting) outcome against the exact optimum.
